@@ -123,10 +123,11 @@ class BinningConfig(BaseConfig, Immutable):
         )
 
         if is_custom:
-            edges = the_dict.pop("edges")
-            closed = the_dict.pop("closed")
-            binning = Binning(edges, closed=closed)
-            return cls(binning, **the_dict)
+            # zmin, zmax and num_bins are all None in a serialised custom binning
+            binning = Binning(
+                the_dict["edges"], closed=the_dict.get("closed", Closed.right)
+            )
+            return cls(binning, method=BinMethod.custom)
 
         return cls.create(**the_dict, cosmology=cosmology)
 
@@ -314,7 +315,13 @@ class BinningConfig(BaseConfig, Immutable):
             This cosmology object is not stored with this instance, but should
             be managed by the top level :obj:`~yaw.Configuration` class.
         """
-        if edges is NotSet:
+        keep_edges = self.is_custom and all(
+            param is NotSet for param in (zmin, zmax, num_bins, method, edges)
+        )
+        if keep_edges:
+            the_dict = dict(edges=self.edges, method=BinMethod.custom)
+
+        elif edges is NotSet:
             if method == "custom":
                 raise ConfigError("'method' is 'custom' but no bin edges provided")
             the_dict = dict()
